@@ -525,6 +525,11 @@ func (m *Message) UnsetField(id int) {
 	m.mu.Lock()
 	defer m.mu.Unlock()
 
+	m.unsetField(id)
+}
+
+// unsetField expects the message to be locked by the caller.
+func (m *Message) unsetField(id int) {
 	if _, ok := m.fieldsMap[id]; ok {
 		delete(m.fieldsMap, id)
 		// re-create the field to reset its value (and subfields if it's a composite field)
@@ -539,6 +544,9 @@ func (m *Message) UnsetField(id int) {
 // "a.b.c". This effectively removes the fields' values and excludes them from
 // operations like Pack() or Marshal().
 func (m *Message) UnsetFields(idPaths ...string) error {
+	m.mu.Lock()
+	defer m.mu.Unlock()
+
 	for _, idPath := range idPaths {
 		if idPath == "" {
 			continue
@@ -552,7 +560,7 @@ func (m *Message) UnsetFields(idPaths ...string) error {
 
 		if _, ok := m.fieldsMap[idx]; ok {
 			if len(path) == 0 {
-				m.UnsetField(idx)
+				m.unsetField(idx)
 				continue
 			}
 
